@@ -19,7 +19,8 @@ PROP = "C12"
 RULE = ("environment scripts x injection points: mostly-valid client life cycles (connect, handshake deliveries, poll, "
         "daemonize, loop iterations carrying ROUTES / HOST_LIST messages, helper dialogue, finally block) with one fault "
         "placed at every step (connect, every byte position of the handshake incl. EOF/ECONNRESET, poll after handshake, "
-        "pidfile open, every loop position, helper write/read/reply/returncode, READY/STOPPING notification, pfile.close, "
+        "pidfile open, every loop position, helper write/read/reply/returncode, every kind of answer to GO (STARTED, EOF, partial line, near misses, other "
+        "protocol lines, garbage) x helper process running / exited 0 / exited non-zero, READY/STOPPING notification, pfile.close, "
         "wait, pidfile unlink) x every exception class (Fatal, OSError with several errnos, KeyboardInterrupt, SystemExit, "
         "AssertionError, Exception, MemoryError, ValueError) x daemon on/off x auto-nets on/off, plus random scripts with "
         "several faults; a case is non-trivial when _main got past ssh.connect; distinct by script text")
@@ -47,6 +48,11 @@ PIDFILE = "/nonexistent-verif-c12/sshuttle.pid"
 
 EXN_ALL = ["Fatal.Injected", "OSError.32", "OSError.104", "OSError.5", "OSError.2", "OSError.13", "OSError.1",
            "KeyboardInterrupt", "SystemExit", "AssertionError", "Exception", "MemoryError", "ValueError"]
+
+
+HELPER_REPLIES = [b"STARTED\n", b"", b"STARTED", b"STARTE", b"S", b"\n", b"started\n", b"STARTED \n", b" STARTED\n",
+                  b"STARTED\r\n", b"STARTEDX\n", b"READY nat\n", b"QUERY_PF_NAT_SUCCESS 10.1.2.3,80\n", b"\xff\xfe\n",
+                  b"\0STARTED\n"]
 
 
 class Stop(BaseException):
@@ -150,7 +156,14 @@ def impl_run(s, real_helper=None):
 
     trace = []
     rec = trace.append
-    st = {"it": 0, "polled0": False, "forked": False, "closed": False, "after_close_io": 0}
+    st = {"it": 0, "polled0": False, "forked": False, "closed": False, "after_close_io": 0, "go": False}
+
+    def helper_said(line):
+        # what the helper really put on the control channel, observed at the pipe (not: "start() returned")
+        if line == b"STARTED\n" and st["go"]:
+            rec("HelperConfirmed")
+        else:
+            rec("HelperSaid(%s)" % hx(line))
 
     class FakeR:                                   # ssh's stdout: scripted deliveries, raw read semantics
         def __init__(self):
@@ -244,6 +257,8 @@ def impl_run(s, real_helper=None):
                     raise make_exc(s["start"][1])
             elif b.startswith(b"HOST "):
                 rec("FwHost")
+            elif b.startswith(b"GO "):
+                st["go"] = True
             return len(b)
 
         def flush(self):
@@ -252,7 +267,9 @@ def impl_run(s, real_helper=None):
         def readline(self):
             if s["start"][0] == "R":
                 raise make_exc(s["start"][1])
-            return b"STARTED\n" if s["start"][1] else b""
+            line = s["reply"] if s.get("reply") is not None else (b"STARTED\n" if s["start"][1] else b"")
+            helper_said(line)
+            return line
 
         def close(self):
             rec("FwClose")
@@ -286,13 +303,17 @@ def impl_run(s, real_helper=None):
                 rec("FwStart")
             elif b.startswith(b"HOST "):
                 rec("FwHost")
+            elif b.startswith(b"GO "):
+                st["go"] = True
             return self.f.write(b)
 
         def flush(self):
             return self.f.flush()
 
         def readline(self):
-            return self.f.readline()
+            line = self.f.readline()
+            helper_said(line)
+            return line
 
         def close(self):
             rec("FwClose")
@@ -471,6 +492,12 @@ def impl_run(s, real_helper=None):
     return trace
 
 
+def model_view(tr):
+    """the events the model speaks about; Helper* events are observations of the helper's own bytes on the
+    control channel, used by the oracle only"""
+    return [e for e in tr if not e.startswith("Helper")]
+
+
 # ----------------------------------------------------------------------
 # the property, evaluated on an implementation trace alone
 
@@ -504,6 +531,8 @@ def oracle(tr, s=None, sync_ok=None, iters_run=None):
                 bad.append("helper asked to install rules after its channel was closed")
         if e == "NotifyReady" and "FwStarted" not in seen:
             bad.append("readiness reported before the helper confirmed")
+        elif e == "NotifyReady" and "HelperConfirmed" not in seen:
+            bad.append("readiness reported although the helper never answered STARTED to the GO request")
         if e == "FwHost" and "FwClose" in seen:
             bad.append("host update after the channel was closed")
         seen.add(e)
@@ -592,6 +621,11 @@ def gen_cases(ctx):
         for started in (True, False):
             for rv in (None, 0, 1, 99, -9):
                 add("start_reply", base_script(daemon=daemon, start=("P", started, rv)))
+        # every kind of answer the helper can give to GO (exact line, EOF, partial line, near misses, other protocol
+        # lines, garbage) x every state of the helper process at that moment (running, exited 0, exited non-zero)
+        for reply in HELPER_REPLIES:
+            for rv in (None, 0, 1, 99, -9):
+                add("helper_reply", base_script(daemon=daemon, start=("P", reply == b"STARTED\n", rv), reply=reply))
         for rv in (0, 1, 99, -9):
             add("done_rv", base_script(daemon=daemon, wait=("V", rv)))
             add("done_rv_after_fault", base_script(daemon=daemon, wait=("V", rv), connect="OSError.111"))
@@ -656,6 +690,8 @@ while True:
         break
     got.append(line)
     if line.startswith(b"GO "):
+        if os.environ.get("VERIF_C12_SILENT") == "1":
+            break                       # leaves without confirming: the client reads EOF, exit status as scripted
         out.write(b"STARTED\n")
 with open(os.environ["VERIF_C12_MARKER"], "wb") as f:
     f.write(b"EOF-SEEN\n" + b"".join(got))
@@ -686,11 +722,14 @@ def real_channel_check(ctx):
         ("sysexit_before_routes", base_script(iters=[{"dead": None, "acts": [("X", "SystemExit"), R]}])),
         ("helper_rc3", base_script(wait=("V", 3), iters=[{"dead": None, "acts": [R]}])),
         ("daemon_exception", base_script(daemon=True, iters=[{"dead": None, "acts": [R, R]}])),
+        # a helper process that goes away with status 0 instead of confirming (Popen.poll() is None or 0 at that moment)
+        ("helper_silent_rc0", base_script(start=("P", False, None), silent=True)),
+        ("helper_silent_rc0_daemon", base_script(daemon=True, start=("P", False, None), silent=True)),
     ]
     if not ctx.quick():
         for e in EXN_ALL:
             scripts.append(("inj_" + e, base_script(iters=[{"dead": None, "acts": [R]}, {"dead": None, "acts": [("X", e)]}])))
-    old_env = {k: os.environ.get(k) for k in ("VERIF_C12_MARKER", "VERIF_C12_RC")}
+    old_env = {k: os.environ.get(k) for k in ("VERIF_C12_MARKER", "VERIF_C12_RC", "VERIF_C12_SILENT")}
     try:
         lines = [script_line(s) for _, s in scripts]
         model = ctx.run_driver(lines)
@@ -698,6 +737,7 @@ def real_channel_check(ctx):
             marker = os.path.join(work, "marker%d" % n)
             os.environ["VERIF_C12_MARKER"] = marker
             os.environ["VERIF_C12_RC"] = str(s["wait"][1])
+            os.environ["VERIF_C12_SILENT"] = "1" if s.get("silent") else "0"
             tr, proc, pipe = impl_run(s, real_helper=stub)
             t0 = time.time()
             while not os.path.exists(marker) and time.time() - t0 < 3:
@@ -719,7 +759,7 @@ def real_channel_check(ctx):
                     pipe.close()
                 except Exception:
                     pass
-            i = " ".join(tr)
+            i = " ".join(model_view(tr))
             ctx.count("real_channel_" + kind)
             ctx.case(("real", ln), sample={"kind": "real helper process: " + kind, "script": ln, "trace": i,
                                            "helper_received": None if seen is None else seen.decode("latin1")[:200]}
@@ -730,7 +770,10 @@ def real_channel_check(ctx):
             if seen is not None and (b"ROUTES\n" in seen) != ("FwStart" in tr):
                 fails.append("helper received a rule set in a run without (or missed one in a run with) FwStart")
             for f in fails:
-                ctx.violation(f, {"script": ln, "trace": tr, "real_helper": True})
+                rp = {"script": ln, "trace": tr, "real_helper": True}
+                if s.get("silent"):
+                    rp["helper_reply_hex"] = "-"
+                ctx.violation(f, rp)
             if i != m:
                 ctx.disagree("client life-cycle trace (real helper process)", ln, i, m, holds=(not fails))
     finally:
@@ -754,21 +797,27 @@ def correspondence(ctx):
     verdict = ctx.run_driver([script_line(s, "SYNC") for _, s in cases])
     seen = set()
     for (kind, s), ln, m, v in zip(cases, lines, model, verdict):
-        if ln in seen:
+        # the model's script line carries "helper answered STARTED yes/no"; the exact bytes of another answer are
+        # an input of the real code only (the model treats every other answer like no answer, as the code does)
+        key = (ln, s.get("reply"))
+        if key in seen:
             continue
-        seen.add(ln)
+        seen.add(key)
         ctx.count(kind)
         ctx.count("daemon" if s["daemon"] else "foreground")
         tr = impl_run(s)
-        i = " ".join(tr)
-        ctx.case(ln, nontrivial=("SyncOk" in tr or len(tr) > 5),
+        i = " ".join(model_view(tr))
+        ctx.case(key if s.get("reply") is not None else ln, nontrivial=("SyncOk" in tr or len(tr) > 5),
                  sample={"kind": kind, "script": ln, "trace": i} if kind in ("valid", "inj_loop", "ssh_dead", "random") and
                  ctx.rng.random() < 0.02 else None)
         for e in tr:
             ctx.count("ev_" + e.split("(")[0])
         fails = oracle(tr, s, v.split(" ")[0] == "1", impl_run.iters_run)
         for f in sorted(set(fails)):
-            ctx.violation(f, {"script": ln, "trace": tr, "handshake_phase_ok": v.split(" ")[0]})
+            rp = {"script": ln, "trace": tr, "handshake_phase_ok": v.split(" ")[0]}
+            if s.get("reply") is not None:
+                rp["helper_reply_hex"] = hx(s["reply"])
+            ctx.violation(f, rp)
         if i != m:
             ctx.disagree("client life-cycle trace", ln, i, m, holds=(not fails))
     ctx.programs = len(seen)
@@ -813,6 +862,9 @@ def replay(ctx, rp):
         print("nothing replayable in", rp.get("kind"))
         return False
     s = parse_line(r["script"])
+    if r.get("helper_reply_hex") is not None:
+        s["reply"] = b"" if r["helper_reply_hex"] == "-" else bytes.fromhex(r["helper_reply_hex"])
+        print("helper's answer to GO: %r, helper poll() at that moment: %r" % (s["reply"], s["start"][2] if s["start"][0] == "P" else None))
     if r.get("real_helper"):
         print("(stored from the real-helper-process run; replayed with the scripted helper)")
     tr = impl_run(s)
